@@ -226,4 +226,7 @@ pub fn run(rc: &mut RunCtx) {
     for l in ["tag_not_allowed_here", "size_not_representable_in_width", "unknown_size_on_non_master", "malformed_raw_id", "end_of_not_innermost_master", "full_with_invalid_child", "failing_call_inside_open_master"] {
         rc.require_label("rejected_calls", l, 20_000);
     }
+    if !rc.quick() {
+        rc.run_fuzz(Some(STAGES[0]), 320);
+    }
 }
